@@ -10,11 +10,15 @@ Inductive case :=
 | CaseSet (ps : list prefix) (probes : list (addr * bool))
   (* access list through the real handler: outcome 0 = Next called and nothing written,
      1 = cancelled: Next not called and nothing written, anything else = something else *)
-| CaseAcl (ps : list prefix) (internal : bool) (src : option addr) (outcome : N)
+| CaseAcl (n_entries : N) (ps : list prefix) (internal : bool) (src : option addr) (outcome : N)
   (* views: per view its prefixes; which view index answered (None: fell through) *)
 | CaseView (views : list (list prefix * bool)) (internal : bool) (src : addr) (answered : option nat)
   (* SubPipeline(skip...) on a pipeline with these handler names: resulting names *)
-| CaseSub (handlers skip result : list (list N)).
+| CaseSub (handlers skip result : list (list N))
+  (* the real default chain (everything ahead of the resolver) with a counting stand-in for
+     the resolver: path 0 = wire fast path, 1 = decoded UDP, 2 = decoded TCP; the queried
+     name was / was not already cached; did the client get a reply; resolver invocations *)
+| CaseChain (n_entries : N) (ps : list prefix) (src : addr) (path : N) (cached replied : bool) (resolver_calls : N).
 
 Definition all_ok (ps : list prefix) : bool := forallb prefix_ok ps.
 
@@ -41,8 +45,8 @@ Definition check_case (c : case) : bool :=
   match c with
   | CaseSet ps probes =>
       all_ok ps && let s := new_set ps in forallb (fun pr => Bool.eqb (set_contains s (fst pr)) (snd pr)) probes
-  | CaseAcl ps internal src outcome =>
-      all_ok ps && match acl_serve (new_set ps) internal src with AclNext => outcome =? 0 | AclDrop => outcome =? 1 end
+  | CaseAcl ne ps internal src outcome =>
+      all_ok ps && match acl_serve (new_set (acl_effective ne ps)) internal src with AclNext => outcome =? 0 | AclDrop => outcome =? 1 end
   | CaseView views internal src answered =>
       forallb (fun v => all_ok (fst v)) views &&
       opt_nat_eqb (if internal then None else
@@ -51,13 +55,19 @@ Definition check_case (c : case) : bool :=
                    | None => None
                    end) answered
   | CaseSub handlers skip result => names_eqb (sub_pipeline handlers skip) result
+  | CaseChain ne ps src path cached replied calls =>
+      all_ok ps &&
+      match acl_serve (new_set (acl_effective ne ps)) false (Some src) with
+      | AclNext => replied && (calls =? (if cached then 0 else 1))
+      | AclDrop => negb replied && (calls =? 0)
+      end
   end.
 
 Definition spec_case (c : case) : bool :=
   match c with
   | CaseSet ps probes => forallb (fun pr => Bool.eqb (spec_contains ps (fst pr)) (snd pr)) probes
-  | CaseAcl ps internal src outcome =>
-      let allowed := internal || match src with Some a => spec_contains ps a | None => false end in
+  | CaseAcl ne ps internal src outcome =>
+      let allowed := internal || match src with Some a => spec_contains (acl_effective ne ps) a | None => false end in
       if allowed then outcome =? 0 else outcome =? 1
   | CaseView views internal src answered =>
       (* the first view (declaration order) whose networks contain the client decides:
@@ -67,4 +77,8 @@ Definition spec_case (c : case) : bool :=
   | CaseSub handlers skip result =>
       forallb (fun h => negb (mem_name h skip)) result &&
       names_eqb (filter (fun h => negb (mem_name h skip)) handlers) result
+  | CaseChain ne ps src path cached replied calls =>
+      (* outside the list: no reply and no resolution, on every path, cached or not;
+         inside: a reply *)
+      if spec_contains (acl_effective ne ps) src then replied else negb replied && (calls =? 0)
   end.
